@@ -167,6 +167,32 @@ fn and_expression(input: Span) -> PResult<Value> {
 }
 
 fn logic_expression(input: Span) -> PResult<Value> {
+    let (input1, a) = relational_expression(input)?;
+    fold_many0(
+        (
+            delimited(multispace0, equality_operator, multispace0),
+            relational_expression,
+            position,
+        ),
+        move || a.clone(),
+        |a, (op, b, end)| {
+            let pos = input.up_to(&end).to_owned();
+            BinOp::new(a, true, op, true, b, pos).into()
+        },
+    )
+    .parse(input1)
+}
+
+fn equality_operator(input: Span) -> PResult<Operator> {
+    alt((
+        value(Operator::Equal, tag("==")),
+        value(Operator::NotEqual, tag("!=")),
+    ))
+    .parse(input)
+}
+
+/// `<`, `<=`, `>` and `>=` bind tighter than `==` and `!=`.
+fn relational_expression(input: Span) -> PResult<Value> {
     let (input1, a) = sum_expression(input)?;
     fold_many0(
         (
@@ -185,8 +211,6 @@ fn logic_expression(input: Span) -> PResult<Value> {
 
 fn relational_operator(input: Span) -> PResult<Operator> {
     alt((
-        value(Operator::Equal, tag("==")),
-        value(Operator::NotEqual, tag("!=")),
         value(Operator::GreaterE, tag(">=")),
         value(Operator::Greater, tag(">")),
         value(Operator::LesserE, tag("<=")),
